@@ -59,10 +59,12 @@ pub(crate) fn pos_to_offset(input: &str, pos: Position) -> usize {
         if let Some((p, _)) = last_line.char_indices().nth(pos.character as usize) {
             offset += p
         } else {
-            offset += last_line.char_indices().last().unwrap().0 + 1
+            // Beyond the last character of the line: the end of the line
+            offset += last_line.len()
         }
     }
-    offset
+    // A position beyond the last line is the end of the text
+    offset.min(input.len())
 }
 
 pub(crate) fn extract_text_range(input: &str, rng: Rng) -> &str {
